@@ -170,7 +170,7 @@ pub fn property() -> Property {
                 name: "lines",
                 plan: |t| match t {
                     Tier::Quick => Plan::Random { cases: 200_000, max_len: 160 },
-                    Tier::Thorough => Plan::Random { cases: 5_000_000, max_len: 400 },
+                    Tier::Thorough => Plan::Random { cases: 20_000_000, max_len: 400 },
                 },
                 case: case_line,
                 min_classes: &[("escape-before-closing-quote", 500), ("hash-inside-quotes", 500), ("eq-leading-first-arg", 100), ("crlf", 1000), ("label-only", 500), ("output-without-command", 500)],
@@ -179,7 +179,7 @@ pub fn property() -> Property {
                 name: "scripts",
                 plan: |t| match t {
                     Tier::Quick => Plan::Random { cases: 5_000, max_len: 2500 },
-                    Tier::Thorough => Plan::Random { cases: 100_000, max_len: 8000 },
+                    Tier::Thorough => Plan::Random { cases: 400_000, max_len: 8000 },
                 },
                 case: case_script,
                 min_classes: &[("over-50-lines", 20)],
